@@ -399,6 +399,26 @@ func c16HashFamily(c *lib.Ctx) {
 		hists = append(hists, c16Hist{make: c16MakeForms[i%len(c16MakeForms)], keys: []string{kw[i]},
 			ops: []string{"r0", "g0", "n", "p0,1", "r0", "r0", "g0", "n", "m", "p0,2", "p0,3", "g0", "n"}, sweep: true, cell: kn[i] + "/remove-first"})
 	}
+	// --- machine-boundary sweep: within every boundary group (c16_bound.go) all ordered pairs of
+	// keys (every value in every exact representation) under the sweep script
+	bw, bn := c16BoundKeys(g)
+	nBound := 0
+	var boundPool []string
+	for gi := range bw {
+		boundPool = append(boundPool, bw[gi]...)
+		for i := range bw[gi] {
+			for j := range bw[gi] {
+				if i == j {
+					continue // one key alone: covered per kind by the sweep above
+				}
+				hists = append(hists, c16Hist{make: c16MakeForms[(i+j)%len(c16MakeForms)], keys: []string{bw[gi][i], bw[gi][j]},
+					ops: c16SweepScript, sweep: true, cell: bn[gi][i] + "/" + bn[gi][j]})
+				nBound++
+			}
+		}
+	}
+	c.Ev.Coverage["hash_boundary_keys"] = len(boundPool)
+	c.Ev.Coverage["hash_boundary_histories"] = nBound
 	nSweep := len(hists)
 	// --- composite: random histories (<= 12 ops) over 2..6 keys of every hashable kind; key kinds
 	// with a listed finding are not used
@@ -417,6 +437,9 @@ func c16HashFamily(c *lib.Ctx) {
 		var keys []string
 		for len(keys) < nk {
 			w := pool[c.Rng.Intn(len(pool))]
+			if c.Rng.Chance(25) {
+				w = boundPool[c.Rng.Intn(len(boundPool))]
+			}
 			switch {
 			case c.Rng.Chance(35) && len(keys) > 0:
 				// a fresh object that is mostly eql/equal to a key already chosen
